@@ -34,6 +34,8 @@ struct Shadow {
     /// step of the last evaluation that found the member dead (window cleared)
     last_dead_eval: Option<usize>,
     known: bool,
+    /// equal / lower / duplicated values were delivered since the last fresh one
+    stale_since_fresh: bool,
 }
 
 pub struct HistOut {
@@ -103,8 +105,10 @@ impl Rig {
                 sh.fresh.push((now, self.step));
                 sh.known = true;
                 d_twin.push(e);
+                sh.stale_since_fresh = false;
                 self.out.c.inc("fresh_values_delivered");
             } else {
+                sh.stale_since_fresh = true;
                 self.out.c.inc("stale_values_delivered");
             }
             self.out.hash = mix3(self.out.hash, v, fresh as u64);
@@ -164,6 +168,36 @@ impl Rig {
             if known_main != known_twin {
                 self.fail(&["C11"], "fd.twin_membership", format!("x{i} known = {known_main} with stale values delivered, {known_twin} without"));
             }
+            // C11 (iii) in its general form, judged BEFORE a removal is accepted: the window holds (a subset of) the
+            // gaps between consecutive reported values that arrived after the last evaluation which found the member dead
+            // and were at most max_interval apart (longer gaps are not sampled, the first value ever only sets the
+            // baseline in the node state). With at least one such gap, smallest one a, the smoothed mean is at least
+            // min(a, initial_interval), so phi <= elapsed / min(a, initial_interval): if that is within the threshold the
+            // member is live at this evaluation — in particular it has not just been forgotten.
+            if self.shadows[i].known {
+                let sh = &self.shadows[i];
+                let lde = sh.last_dead_eval.unwrap_or(0);
+                let mut a = f64::INFINITY;
+                for k in 2..sh.fresh.len() {
+                    if sh.fresh[k].1 > lde {
+                        let g = sh.fresh[k].0 - sh.fresh[k - 1].0;
+                        if g <= self.cfg.max_interval {
+                            a = a.min(g.as_secs_f64());
+                        }
+                    }
+                }
+                if a.is_finite() {
+                    let elapsed = (now - sh.fresh.last().unwrap().0).as_secs_f64();
+                    let denom = a.min(self.cfg.initial_interval.as_secs_f64());
+                    if denom > 0.0 && self.cfg.phi >= (elapsed / denom) * (1.0 + 1e-9) + 1e-12 {
+                        self.out.c.inc("c11_live_claims_general");
+                        if !live.contains(&id) {
+                            let removed = !known_main;
+                            self.fail(&["C11"], "fd.fresh_member_not_live", format!("x{i}: sampled gaps after the last dead evaluation (step {lde}) have minimum {a}s, the last fresh value arrived {elapsed}s ago, phi threshold {} >= elapsed / min(a, initial {:?}) = {}: the member must be live at this evaluation, it is {}", self.cfg.phi, self.cfg.initial_interval, elapsed / denom, if removed { "forgotten (removed)" } else { "reported dead" }));
+                        }
+                    }
+                }
+            }
             if self.shadows[i].known && !known_main {
                 self.out.c.inc("members_removed");
                 let sh = &mut self.shadows[i];
@@ -193,7 +227,9 @@ impl Rig {
             if elapsed.as_secs_f64() > bound_s * (1.0 + 1e-9) + 1e-6 {
                 self.out.c.inc("c10_deadline_claims");
                 if is_live || !is_dead {
-                    self.fail(&["C10"], "fd.not_dead_after_deadline", format!("x{i}: no fresh heartbeat for {elapsed:?} > phi {} x max(max_interval {:?}, initial {:?}) = {bound_s}s, yet live={is_live} dead={is_dead}", self.cfg.phi, self.cfg.max_interval, self.cfg.initial_interval));
+                    // silent past the deadline while replayed / lower values kept arriving: those did postpone it (C11 too)
+                    let props: &[&'static str] = if sh.stale_since_fresh { &["C10", "C11"] } else { &["C10"] };
+                    self.fail(props, "fd.not_dead_after_deadline", format!("x{i}: no fresh heartbeat for {elapsed:?} > phi {} x max(max_interval {:?}, initial {:?}) = {bound_s}s, yet live={is_live} dead={is_dead}", self.cfg.phi, self.cfg.max_interval, self.cfg.initial_interval));
                 }
             }
             // C10 / C11 (i): live needs two usable observations
